@@ -32,3 +32,9 @@ PROPS["C02"] = dict(pkg="c02", shards=16, level="exploration",
     level_text="Exploration: an enumerated battery (all absent/present bound combinations x boundary values x every Go representation; exhaustive for that grid) plus generated nested list/map/any/enum schemas with valid-by-construction, one-place-perturbed and decoder-domain inputs, all judged in both directions against the reference interpreter.",
     level_note="Trusts harness/model as the reading of the statement and of the fixed lenient conversions (strconv syntax for numeric strings, %f for float->string, the 14 boolean words, the reference unit parser); inputs whose denotation is not unique (colliding map keys, ambiguous unit sentences) are counted as unspecified; panics on rejected inputs are left to C04.",
     assumptions=["native values are of the schema's native Go type (other Go types are C04's domain)"])
+
+PROPS["C01"] = dict(pkg="c01", shards=16, level="exploration",
+    technique="property-based testing (rapid): generated schemas x valid-by-construction inputs in arbitrary representations; oracle = round-trip laws (Unserialize/Validate/Serialize/CBOR encode-decode) and typed-vs-untyped differential",
+    level_text="Exploration: generated schemas of every kind (struct-mapped and map-based objects, one-of, references, scopes, units, defaults) with inputs rendered in arbitrary decoder representations; each accepted input is taken through Validate, Serialize, Unserialize again directly and over a real CBOR encode/decode, and through the typed entry points.",
+    level_note="Struct-mapped objects follow the documented precondition (properties that cannot express absence are required, treat-empty-as-default, or zero-valid and rule-free); equality is NaN-reflexive, regexp-by-source, nil==empty slice, and empty==absent only where a property is marked treat-empty-as-default; panics are left to C04.",
+    assumptions=["CBOR transport = fxamacker/cbor default Marshal and Unmarshal into any, as atp/client.go and atp/server.go use it"])
